@@ -41,9 +41,9 @@ REGISTRY = {
     "C02": eval_family([props.gen_C02], [props.judge_pairs]),
     "C03": eval_family([props.gen_C03]),
     "C04": eval_family([props.gen_C04], [props.judge_groups]),
-    "C10": eval_family([props.gen_C10], [props.judge_pairs]),
-    "C11": eval_family([props.gen_C11, props.gen_C11_big], [props.judge_laws, shellprops.judge_shell]),
-    "C12": eval_family([props.gen_C12], [props.judge_pairs, props.judge_laws]),
+    "C10": eval_family([props.gen_C10, props.gen_bench_subst], [props.judge_pairs, shellprops.judge_shell]),
+    "C11": eval_family([props.gen_C11, props.gen_C11_big, props.gen_bench_laws], [props.judge_laws, shellprops.judge_shell]),
+    "C12": eval_family([props.gen_C12, props.gen_bench_patterns], [props.judge_pairs, props.judge_laws, shellprops.judge_shell]),
     "C13": eval_family([props.gen_C13], [props.judge_laws]),
     "C15": eval_family([props.gen_C15], [props.judge_groups]),
     "C18": eval_family([props.gen_C18], [props.judge_pairs]),
@@ -100,6 +100,11 @@ def main():
         print("unknown property", prop)
         return 2
     t0 = time.time()
+    # replays of earlier runs of this property are stale
+    import glob
+    for old in glob.glob(os.path.join(run.VERIF, "replays", prop + "-*.json")):
+        if not args.replay or os.path.abspath(old) != os.path.abspath(args.replay):
+            os.remove(old)
     chk = core.Check(prop, args.tier, args.seed)
     violations_out = []
     build_broken = []
@@ -108,7 +113,7 @@ def main():
     if args.skip_proofs:
         proof = {"ok": True, "obligations": 0, "discharged": 0, "theorems": [], "axioms": [], "problems": [], "cmd": "skipped"}
     else:
-        proof = run.check_proofs(prop)
+        proof = run.check_proofs(prop, args.tier)
     print("[proofs] %s: %d theorem(s) %s %s" % (prop, proof["obligations"], "re-checked" if proof["ok"] else "NOT checked",
                                                "; ".join(proof["problems"])[:600]))
     if not os.path.exists(run.DRIVER):
@@ -209,6 +214,7 @@ def main():
         "trusted_base": TRUSTED_BASE,
         "theorems": proof["theorems"],
         "axioms_reported_by_print_assumptions": proof["axioms"],
+        "coqchk": proof.get("coqchk", "run in the thorough tier only"),
         "evaluations": chk.stats["evaluations"],
         "formula_evaluations": sum(len(c.get("formulas", [1])) for c in chk.cases.values()),
         "distinct_nontrivial": len(chk.nontrivial),
